@@ -12,7 +12,8 @@ RULE = ("maps are built through the public API by harness/c06_gen.py (entities w
         "17-symbol alphabet of C02 plus id/replace look-alikes, outputs with both separators and instance: forms, "
         "fixups with explicit and lowest-free indexes, hidden objects, brush entities, prisms and free faces, "
         "displacements of power 1-4 with random vertex data and multiblend, nested visgroups, groups, cameras, cordons, "
-        "Strata viewports/point data, repeated and hash-colliding ids), plus every .vmf under /repo/tests; each map is "
+        "Strata viewports/point data, repeated and hash-colliding ids; BOUNDARY SHAPES: every per-vertex array and allowed_verts also all-zero / "
+        "all-default / all-equal / single non-zero element first-last-middle, powers at both ends, scalars equal to the reader's defaults), plus every .vmf under /repo/tests; each map is "
         "checked under options (minimal, disp_multiblend) x preserve_ids; the parser is additionally fed key-dropped variants of exported trees "
         "(one node of a uniformly chosen kind removed, or every node removed with probability 3-30%). HISTORIES (harness/c06_hist.py): one live map is "
         "exported again and again with in-place edits through the public API in between (Solid/Side.translate, localise, Side.scale/offset setters, "
@@ -286,6 +287,8 @@ def profiles(ctx):
         ('disp', P(p_disp=0.9, n_ents=(0, 2), n_brushes=(1, 2), p_weird_names=0.1)),
         ('ents', P(n_ents=(2, 8), n_keys=(1, 8), n_outputs=(1, 5), n_fixups=(1, 6), p_disp=0.05, n_brushes=(0, 1))),
         ('editor', P(n_vis=(1, 4), n_groups=(1, 4), n_cams=(1, 3), n_cordons=(1, 3), p_strata=0.9, p_disp=0.05, n_ents=(0, 3))),
+        ('shapes', P(p_shapes=1.0, p_disp=0.9, n_ents=(0, 2), n_brushes=(1, 2), n_ent_solids=(0, 1), n_keys=(0, 2), n_outputs=(0, 1),
+                     p_weird_names=0.1, max_power=4)),
     ]
 
 
@@ -472,7 +475,8 @@ def search_histories(ctx, n, n_ops):
             small = ops[:step]
         for key, what in fails[:2]:
             c = dict(case, ops=small)
-            ctx.witness('history:' + key, f'after the in-place edits {json.dumps(small)} on a map that had been exported before: {what}', c)
+            pre = f'after the in-place edits {json.dumps(small)} on a map that had been exported before: ' if small else 'first export of a history map: '
+            ctx.witness('history:' + key, pre + what, c)
 
 
 def correspond_histories(ctx, drv, n, n_ops):
@@ -679,11 +683,30 @@ def search(ctx):
         ctx.count('entities', len(d['ents']))
         ctx.count('brushes', len(d['spawn']['solids']) + sum(len(e['solids']) for e in d['ents']))
         ctx.count('displacements', sum(1 for e in [d['spawn']] + d['ents'] for s in e['solids'] for sd in s['sides'] if sd['disp']))
+        for e in [d['spawn']] + d['ents']:
+            for sol in e['solids']:
+                for sd in sol['sides']:
+                    if sd['disp']:
+                        ctx.count(f"displacement power {sd['disp']['power']}")
+                        vs = sd['disp']['verts']
+                        for arr in ('normal', 'dist', 'offset', 'offset_norm', 'alpha', 'tri_a', 'blend', 'malpha', 'colors'):
+                            vals = [json.dumps(v[arr]) for v in vs]
+                            def _zero(x):
+                                if isinstance(x, list) and x and all(isinstance(c, int) for c in x):
+                                    return float(''.join(map(chr, x))) == 0
+                                if isinstance(x, list):
+                                    return all(_zero(y) for y in x)
+                                return x in (0, None)
+                            zero = _zero(vs[0][arr])
+                            if len(set(vals)) == 1:
+                                ctx.count(f'displacement array {arr} constant ' + ('zero' if zero else 'non-zero'))
+                            elif len(set(vals)) == 2 and min(vals.count(x) for x in set(vals)) == 1:
+                                ctx.count(f'displacement array {arr} single distinct element')
         ctx.count('outputs', sum(len(e['outputs']) for e in d['ents']))
         del vmf
         for k in run_oracle(ctx, case, build):
             seen[k] = seen.get(k, 0) + 1
-        if time.time() - t0 > ctx.budget(72, 600):
+        if time.time() - t0 > ctx.budget(56, 600):
             ctx.notes.append('search stopped by time budget')
             break
     for k, v in sorted(seen.items()):
